@@ -241,7 +241,8 @@ class C13Monitor:
                     exp = 0
                     for h in hs:
                         res.count("occurrence_hook_pairs")
-                        tm = h.time is None or t in h.time
+                        want = h.intended_time if hasattr(h, "intended_time") else h.time
+                        tm = want is None or t in want
                         fm = True
                         if kind.startswith("market"):
                             if h.specific_class is not None:
@@ -256,7 +257,7 @@ class C13Monitor:
                             exp += 1
                             res.count("fired/" + kind)
                             fired_any = True
-                            if h.time is not None and h.time.count(t) > 1:
+                            if want is not None and want.count(t) > 1:
                                 res.count("class/repeated_time_entry_hit")
                         else:
                             res.count("filtered_out/" + kind)
